@@ -525,6 +525,12 @@ def do_query(q, tier, seed, validate=True):
         return rec
     finally:
         rec['wall_s'] = round(time.time() - t0, 2)
+        if rec.get('status') == 'proved' and not os.environ.get('VF_KEEP_WORK'):
+            # a proved query keeps its generated C and the solver's answer; the bulky intermediates (IR, native builds) go
+            for f in os.listdir(q.wd):
+                if f.endswith('.ll') or f.endswith('.o') or f in ('native', 'native_asan', 'cexe') or f.endswith('.vals'):
+                    try: os.remove(os.path.join(q.wd, f))
+                    except OSError: pass
 
 # ------------------------------------------------------------------ main
 def expand(prop, spec, tier, only):
